@@ -318,10 +318,27 @@ def stepAttrCheck (line : String) : String :=
     if keyInputs == b "inputs" && keyOutputs == b "outputs" && keyDescription == b "description" then "ok" else "bad-keys"
   | _ => "bad-op"
 
+/-- `c09valid`: `<alwaysOutOfDate 0|1> <successful 0|1> <virtual 0|1><mutated 0|1>:<recorded>:<current> ...` (file information:
+a number, `-` = missing) → `valid` / `invalid` by the GENERATED chain of ExternalCommand::isResultValid -/
+def stepValid (line : String) : String :=
+  let info (s : String) : Option (Option Nat) := if s == "-" then some none else s.toNat?.map some
+  let out (s : String) : Option OutputState :=
+    match s.splitOn ":" with
+    | [f, r, c] => match f.toList, info r, info c with
+      | [v, m], some r, some c => some { isVirtual := v == '1', isMutated := m == '1', recorded := r, current := c }
+      | _, _, _ => none
+    | _ => none
+  match fields line with
+  | a :: s :: outs =>
+    match flag a, flag s, outs.mapM out with
+    | some a, some s, some os => if resultValidOf Generated.BSAttrs.resultValid a s os then "valid" else "invalid"
+    | _, _, _ => "bad-op"
+  | _ => "bad-op"
+
 end Configure
 
 def modes : List (String × Mode) :=
   [("c09sig", lineLoop stepSig), ("c09hashstr", lineLoop stepHashStr),
-   ("c09configure", lineLoop stepConfigure), ("c09attrcheck", lineLoop stepAttrCheck)]
+   ("c09configure", lineLoop stepConfigure), ("c09attrcheck", lineLoop stepAttrCheck), ("c09valid", lineLoop stepValid)]
 
 end LLBuild.Drv.C09
